@@ -277,7 +277,13 @@ def handleC02 (op : String) (input impl : Json) : Except String Json := do
     let ts ← histTablesOf input
     -- two steps hold the same logical table iff the model's stored tables are equal
     let canon := ts.map (fun t => (jRes jStored (histCanon t)).compress)
-    let sameAsPrev := (canon.zip (canon.drop 1)).map (fun (a, b) => a == b)
+    -- a step whose command names its file (`wrgl commit main FILE MSG … --set-file --set-primary-key`) always
+    -- makes a commit: that path compares nothing (the identifier clauses below still bind its table);
+    -- "no change" is what a commit FROM THE BRANCH FILE says when the table is the one the branch holds
+    let vias ← (← arrFld input "steps").mapM (fun st => do
+      return (fldD st "via" (Json.str "config")).getStr?.toOption.getD "config")
+    let explicit := vias.map (fun v => v == "setflags")
+    let sameAsPrev := ((canon.zip (canon.drop 1)).zip (explicit.drop 1)).map (fun ((a, b), e) => a == b && !e)
     let mj := Json.arr ((ts.zip (false :: sameAsPrev)).map (fun (t, same) =>
       Json.mkObj [("out", if same then "nochange" else "committed"), ("pk", jNats t.pk)])).toArray
     if resClass impl == "panic" then return reply mj false ["no-panic"]
